@@ -24,7 +24,7 @@ struct VioSlot { char sig[160]; char detail[400]; int scenario; int nchoices; in
 struct ScStat { volatile uint64_t execs, points, transitions, capped, max_dev_seen, vio_execs; };
 struct WorkerSlot { volatile int scenario; volatile int nchoices; int choices[400]; volatile int busy; };
 struct Shared {
-    volatile int next_unit; volatile int nvio; VioSlot vio[128]; WorkerSlot ws[64]; volatile int stop; volatile uint64_t divergences;
+    volatile int next_unit; volatile int nvio; VioSlot vio[128]; WorkerSlot ws[64]; volatile int stop; volatile uint64_t divergences; volatile int planner_pos;
     char samples[6][1500]; volatile int nsamples;
 };
 static Shared* SH; static SharedSet STATES, OUTCOMES; static ScStat* SCST;
@@ -35,6 +35,9 @@ static void record_violation(int scn, const Vio& v, const std::vector<ChoiceRec>
     VioSlot& s = SH->vio[k]; strncpy(s.sig, v.sig.c_str(), 159); strncpy(s.detail, v.detail.c_str(), 399); s.scenario = scn; s.nchoices = int(std::min<size_t>(ch.size(), 400));
     for (int i = 0; i < s.nchoices; ++i) s.choices[i] = ch[i].chosen; s.count = 1;
 }
+
+// scenario family = name without a trailing numeric id ("Z-idle-str-1568" -> "Z-idle-str")
+static std::string family_of(const std::string& n) { size_t p = n.find_last_of('-'); if (p != std::string::npos && p + 1 < n.size() && n.find_first_not_of("0123456789", p + 1) == std::string::npos) return n.substr(0, p); return n; }
 
 struct Exec { std::vector<std::pair<int, bool>> pts; };   // (n enabled, chosen was deviation)
 
@@ -117,14 +120,40 @@ int main(int argc, char** argv) {
     STATES.init(tier ? (1u << 26) : (1u << 23)); OUTCOMES.init(tier ? (1u << 24) : (1u << 21));
     double t0 = wall_now(); g_deadline = t0 + budget;
     rep::Report R;
-    // determinism self-test + unit generation from the default executions (parent, before forking)
+    // determinism self-test + unit generation from the default executions. They run in a forked planner so that a
+    // default schedule that kills the process (C19) is attributed to its scenario instead of taking the explorer down.
     std::vector<Unit> units;
-    for (size_t i = 0; i < SCN.size(); ++i) {
-        std::string d[2]; std::vector<ChoiceRec> ch;
-        for (int r = 0; r < 2; ++r) { World w(SCN[i]); w.run({}); for (auto& t : w.trace) d[r] += t + "\n"; d[r] += std::to_string(w.outcome_digest()); if (r == 0) ch = w.choices; }
-        if (d[0] != d[1]) { fprintf(stderr, "simnet: non-deterministic default execution of %s\n", SCN[i].name.c_str()); return 2; }
-        units.push_back({int(i), {}, 0});                         // the default execution itself
-        if (SCN[i].D >= 1) for (size_t p = 0; p < ch.size(); ++p) for (int alt = 1; alt < ch[p].n; ++alt) { std::vector<int> pre(p, 0); pre.push_back(alt); units.push_back({int(i), pre, SCN[i].D}); }
+    {
+        std::string planfile = std::string(out ? out : "/tmp/simnet") + ".plan";
+        size_t start = 0; int planner_deaths = 0;
+        FILE* trunc = fopen(planfile.c_str(), "w"); if (trunc) fclose(trunc);
+        while (start < SCN.size()) {
+            SH->planner_pos = int(start);
+            pid_t pp = fork();
+            if (pp == 0) {
+                FILE* f = fopen(planfile.c_str(), "a");
+                for (size_t i = start; i < SCN.size(); ++i) {
+                    SH->planner_pos = int(i);
+                    std::string d[2]; std::vector<ChoiceRec> ch;
+                    for (int r = 0; r < 2; ++r) { World w(SCN[i]); w.run({}); for (auto& t : w.trace) d[r] += t + "\n"; d[r] += std::to_string(w.outcome_digest()); if (r == 0) ch = w.choices; }
+                    if (d[0] != d[1]) { fprintf(f, "N %zu\n", i); fclose(f); _exit(3); }
+                    fprintf(f, "S %zu", i); for (auto& c : ch) fprintf(f, " %d", c.n); fprintf(f, "\n"); fflush(f);
+                }
+                fclose(f); _exit(0);
+            }
+            int st = 0; waitpid(pp, &st, 0);
+            if (WIFEXITED(st) && WEXITSTATUS(st) == 0) break;
+            if (WIFEXITED(st) && WEXITSTATUS(st) == 3) { fprintf(stderr, "simnet: non-deterministic default execution of %s\n", SCN[SH->planner_pos].name.c_str()); return 2; }
+            int bad = SH->planner_pos; planner_deaths++;
+            Vio v{"C19:process-death:" + family_of(SCN[bad].name), "the process died (signal/abort/uncaught exception, status " + std::to_string(st) + ") while executing the default schedule"};
+            record_violation(bad, v, {});
+            start = size_t(bad) + 1;
+        }
+        FILE* f = fopen(planfile.c_str(), "r"); char line[8192];
+        while (f && fgets(line, sizeof line, f)) { if (line[0] != 'S') continue; char* p = line + 2; size_t i = strtoul(p, &p, 10); std::vector<int> ns; while (*p && *p != '\n') { int n = int(strtol(p, &p, 10)); if (n > 0) ns.push_back(n); else break; }
+            units.push_back({int(i), {}, 0});
+            if (SCN[i].D >= 1) for (size_t q = 0; q < ns.size(); ++q) for (int alt = 1; alt < ns[q]; ++alt) { std::vector<int> pre(q, 0); pre.push_back(alt); units.push_back({int(i), pre, SCN[i].D}); } }
+        if (f) fclose(f); unlink(planfile.c_str());
     }
     // order: all D<=1 work of all scenarios is implied by the unit roots; deeper work hangs below them
     std::vector<pid_t> pids(workers);
@@ -139,7 +168,7 @@ int main(int argc, char** argv) {
         if (WIFEXITED(st) && WEXITSTATUS(st) == 0) { alive--; continue; }
         // crash / sanitizer abort / uncaught exception inside an execution: attributable through the worker slot
         WorkerSlot& ws = SH->ws[w]; crashes++;
-        Vio v{"C19:process-death:" + SCN[ws.scenario].name, "the process died (signal/abort/uncaught exception, status " + std::to_string(st) + ") while executing this schedule"};
+        Vio v{"C19:process-death:" + family_of(SCN[ws.scenario].name), "the process died (signal/abort/uncaught exception, status " + std::to_string(st) + ") while executing this schedule"};
         std::vector<ChoiceRec> ch(ws.nchoices); for (int i = 0; i < ws.nchoices; ++i) ch[i].chosen = ws.choices[i]; record_violation(ws.scenario, v, ch);
         if (crashes < 64 && !SH->stop) spawn(w); else alive--;
     }
